@@ -52,6 +52,8 @@ type RecBackend struct {
 	NWatch        int
 	Peer          *Peers
 	UnsyncedReads int // reads that reached the backend before SyncReadRevision was called
+	CurRev        uint64
+	RevSets       []uint64 // every revision the node was told to read at
 }
 
 func (b *RecBackend) read() {
@@ -106,8 +108,11 @@ func (b *RecBackend) Watch(ctx context.Context, key string, revision uint64) (<-
 	return nil, errors.New("stub")
 }
 func (b *RecBackend) GetResourceLock() resourcelock.Interface { return Lock{} }
-func (b *RecBackend) GetCurrentRevision() uint64              { return 0 }
-func (b *RecBackend) SetCurrentRevision(uint64)               {}
+func (b *RecBackend) GetCurrentRevision() uint64              { return b.CurRev }
+func (b *RecBackend) SetCurrentRevision(r uint64) {
+	b.CurRev = r
+	b.RevSets = append(b.RevSets, r)
+}
 
 type Lock struct{}
 
